@@ -828,5 +828,25 @@ PROP = Prop(
                   "of the handler language (PV/Model/StrTable.lean: literal text / str(constant) / "
                   "attribute strings as printer pieces) are tied by the table-str / table-dispatch "
                   "streams: the compiled table interpreter on the regenerated table vs the real printer"],
+    level_text="Lean theorems: for every tree of the decidable fragment InFragment (computed from the "
+               "REGENERATED precedence tables) the printer's text, read by the real-fuel parser model, "
+               "is the tree again modulo flattening of sums/products and prints to the same pieces "
+               "(roundtrip_partial / roundtrip_current); the same on STRINGS through the modelled "
+               "lexer (lex_render, roundtrip_string_partial / _current; LexSafe decidable); print_total, "
+               "str_idempotent, str_flatten_invariant; exactly 23 (position, child class) pairs fail "
+               "the local compatibility condition (bad_triples_current, decide) = the known findings. "
+               "Printer, parser and lexer are tied by T-gen: every StringifyMapper handler, every "
+               "parser branch and the lexer rule table are re-read from the source on every run and "
+               "the hand-written models are proved equal to the table interpreters for all inputs "
+               "(strE_eq_table_current, parse_eq_table_current, lex_table_current).",
+    level_note="Partial: 'same value in every environment' follows from tree equality modulo "
+               "flattening (proved) plus C02; Min/Max/CSE/wildcards, n-ary bitwise/logical nodes with "
+               "!= 2 operands and the 23 failing parent/child pairs are outside the fragment "
+               "(witnesses + known findings). Trusted: Lean kernel; the meaning of the eight "
+               "character-class regular expressions, float() and repr(float) (hand-modelled, tied by "
+               "the lex streams); the readers extract/stringifier.py, parser.py, lex.py, prec.py.",
+    technique="Lean 4 generic Pratt printer/parser round-trip theorem over regenerated precedence, "
+              "handler, parser and lexer tables (decide instances + interpreter-equals-model theorems) "
+              "+ differential correspondence on printed trees, token lists and strings",
     design_ref="DESIGN.md §4 C06",
 )
